@@ -154,18 +154,27 @@ def build(family, p):
                     ca.beginAuthentication(pr)
                 finally:
                     authentication.getpass = saved_gp
-                check(bool(ca.unixFDSupport) == unix, 'transport kind detection differs')
-                ca.authMech = PREF[mi]
-                ca.authOrder = list(reversed(PREF[mi + 1:]))
-                if pending:
-                    ca.guid = b'ab'
-                pr.sent[:] = []
-
                 def fake_cookie(ctx, cid):
                     if cookie_ok:
                         return b'c00c1e'
                     raise IOError('no keyring')
                 ca._authGetDBusCookie = fake_cookie
+                # the pre-state is reached by conversation: `mi` mechanisms already refused, and (negotiating) the
+                # server's OK already received on a UNIX transport
+                authentication.getpass = type('G', (), {'getuser': staticmethod(lambda: 'user')})
+                try:
+                    for _ in range(mi):
+                        ca.handleAuthMessage(b'REJECTED')
+                    offered = [m.split()[1] for m in pr.sent if m[:5] == b'AUTH ']
+                    if offered != PREF[:mi + 1]:
+                        raise HarnessError('pre-state: mechanisms were not offered in preference order')
+                    if pending:
+                        ca.handleAuthMessage(b'OK 6162')
+                        if pr.sent[-1] != b'NEGOTIATE_UNIX_FD':
+                            raise HarnessError('pre-state: OK on a UNIX transport did not start the negotiation')
+                finally:
+                    authentication.getpass = saved_gp
+                pr.sent[:] = []
             failed = False
             saved_gp = authentication.getpass
             authentication.getpass = type('G', (), {'getuser': staticmethod(lambda: 'user')})
